@@ -3,36 +3,36 @@ import TunnoxModel.Model.PredPrelude
 open Tunnox.PredPrelude
 namespace Gen
 
-namespace conncode
+namespace lim_conncode
 def MaxActiveCodesPerClient : Nat := 10
 def MaxActiveMappingsPerClient : Nat := 50
-end conncode
+end lim_conncode
 
-namespace sessioncfg
+namespace lim_sessioncfg
 def MaxConnections : Nat := 10000
 def MaxControlConnections : Nat := 5000
-end sessioncfg
+end lim_sessioncfg
 
-namespace session
+namespace lim_session
 def DefaultMaxConnections : Nat := 10000
 def DefaultMaxControlConnections : Nat := 5000
-end session
+end lim_session
 
 namespace Skel
-def ActivateConnectionCode : List String := ["connCodeRepo.GetByCode", "mappingQuotaMu.Lock", "defer mappingQuotaMu.Unlock", "portMappingRepo.GetClientPortMappings", "@s.maxActiveMappingsPerClient", "@s.maxActiveMappingsPerClient", "@s.maxActiveMappingsPerClient", "portMappingService.CreatePortMapping", "connCode.Activate", "portMappingService.DeletePortMapping", "connCodeRepo.Update", "portMappingService.DeletePortMapping"]
-def CloseConnection : List String := ["connLock.Lock", "delete", "connLock.Unlock", "RemoveControlConnection", "RemoveTunnelConnection"]
-def CodeCreate : List String := ["{ret", "}", "{ret", "}", "storage.Set", "{ret", "}", "storage.Set", "{ret", "storage.Delete", "}", "{ret", "}", "listStore.AppendToList", "{ret", "storage.Delete", "storage.Delete", "}"]
-def CodeGetByCode : List String := ["storage.Get"]
-def CodeGetByID : List String := ["storage.Get"]
-def CreateConnectionCode : List String := ["codeQuotaMu.Lock", "defer codeQuotaMu.Unlock", "connCodeRepo.CountActiveByTargetClient", "@s.maxActiveCodesPerClient", "@s.maxActiveCodesPerClient", "generator.GenerateUnique", "connCodeRepo.GetByCode", "generateID", "connCodeRepo.Create"]
-def ListByTargetClient : List String := ["listStore.GetList", "r.GetByID", "listStore.RemoveFromList"]
-def NewSessionManager : List String := ["NewClientRegistry", "@config.MaxControlConnections", "NewTunnelRegistry"]
-def RegisterControlConnection : List String := ["clientRegistry.Register"]
-def handleConnection : List String := ["acquireConnectionSlot", "sync.OnceFunc", "@h.releaseConnectionSlot", "@slotOwnedByTunnel", "@slotOwnedByTunnel", "releaseSlot", "adapter.PrepareConnection", "client.CheckMappingQuota", "client.DialTunnel", "tunnel.NewTunnel", "releaseSlot", "tunnelManager.RegisterTunnel", "tun.Start", "@slotOwnedByTunnel"]
+def L17_ActivateConnectionCode : List String := ["connCodeRepo.GetByCode", "mappingQuotaMu.Lock", "defer mappingQuotaMu.Unlock", "portMappingRepo.GetClientPortMappings", "@s.maxActiveMappingsPerClient", "@s.maxActiveMappingsPerClient", "@s.maxActiveMappingsPerClient", "connCode.Activate", "portMappingService.CreatePortMapping", "connCodeRepo.Update", "portMappingService.DeletePortMapping"]
+def L17_CloseConnection : List String := ["connLock.Lock", "delete", "connLock.Unlock", "RemoveControlConnection", "RemoveTunnelConnection"]
+def L17_CodeCreate : List String := ["{ret", "}", "{ret", "}", "storage.Set", "{ret", "}", "storage.Set", "{ret", "storage.Delete", "}", "{ret", "}", "listStore.AppendToList", "{ret", "storage.Delete", "storage.Delete", "}"]
+def L17_CodeGetByCode : List String := ["storage.Get"]
+def L17_CodeGetByID : List String := ["storage.Get"]
+def L17_CreateConnectionCode : List String := ["codeQuotaMu.Lock", "defer codeQuotaMu.Unlock", "connCodeRepo.CountActiveByTargetClient", "@s.maxActiveCodesPerClient", "@s.maxActiveCodesPerClient", "generator.GenerateUnique", "connCodeRepo.GetByCode", "generateID", "connCodeRepo.Create"]
+def L17_ListByTargetClient : List String := ["listStore.GetList", "r.GetByID", "listStore.RemoveFromList"]
+def L17_NewSessionManager : List String := ["NewClientRegistry", "@config.MaxControlConnections", "NewTunnelRegistry"]
+def L17_RegisterControlConnection : List String := ["clientRegistry.Register"]
+def L17_handleConnection : List String := ["acquireConnectionSlot", "sync.OnceFunc", "@h.releaseConnectionSlot", "@slotOwnedByTunnel", "@slotOwnedByTunnel", "releaseSlot", "adapter.PrepareConnection", "client.CheckMappingQuota", "client.DialTunnel", "tunnel.NewTunnel", "releaseSlot", "tunnelManager.RegisterTunnel", "tun.Start", "@slotOwnedByTunnel"]
 end Skel
 
 namespace Flow
-def CreateConnection : List String := [
+def L17_CreateConnection : List String := [
   "if s.config != nil && s.config.MaxConnections > 0",
   "s.connLock.RLock()",
   "currentCount := len(s.connMap)",
@@ -85,7 +85,7 @@ def CreateConnection : List String := [
   "s.connLock.Unlock()",
   "return conn, nil"
 ]
-def ClientRegister : List String := [
+def L17_ClientRegister : List String := [
   "if conn == nil",
   "return fmt.Errorf(\"connection cannot be nil\")",
   "end",
@@ -114,7 +114,7 @@ def ClientRegister : List String := [
   "r.logger.Debugf(\"ClientRegistry: registered connection %s (clientID=%d, authenticated=%v)\", conn.ConnID, conn.ClientID, conn.Authenticated)",
   "return nil"
 ]
-def findOldest : List String := [
+def L17_findOldest : List String := [
   "var oldestConn *ControlConnection",
   "var oldestTime time.Time",
   "for _, conn := range r.connMap",
@@ -125,7 +125,7 @@ def findOldest : List String := [
   "end",
   "return oldestConn"
 ]
-def TunnelRegister : List String := [
+def L17_TunnelRegister : List String := [
   "if conn == nil",
   "return coreerrors.New(coreerrors.CodeInvalidParam, \"connection cannot be nil\")",
   "end",
@@ -145,7 +145,7 @@ def TunnelRegister : List String := [
   "r.logger.Debugf(\"TunnelRegistry: registered connection %s (tunnelID=%s, mappingID=%s)\", conn.ConnID, conn.TunnelID, conn.MappingID)",
   "return nil"
 ]
-def acquireConnectionSlot : List String := [
+def L17_acquireConnectionSlot : List String := [
   "maxConn := h.connectionLimit()",
   "for",
   "current := h.activeConnCount.Load()",
@@ -157,10 +157,10 @@ def acquireConnectionSlot : List String := [
   "end",
   "end"
 ]
-def releaseConnectionSlot : List String := [
+def L17_releaseConnectionSlot : List String := [
   "h.activeConnCount.Add(-1)"
 ]
-def connectionLimit : List String := [
+def L17_connectionLimit : List String := [
   "maxConn := h.config.MaxConnections",
   "if maxConn <= 0",
   "quota, err := h.client.GetUserQuota()",
@@ -174,7 +174,7 @@ def connectionLimit : List String := [
   "end",
   "return maxConn"
 ]
-def CountActiveByTargetClient : List String := [
+def L17_CountActiveByTargetClient : List String := [
   "codes, err := r.ListByTargetClient(targetClientID)",
   "if err != nil",
   "return 0, err",
